@@ -16,9 +16,12 @@
     false for that code.
 -/
 import Vita.C10.Lemmas
+import Vita.C10.GenSites
+import Vita.C10.Reviewed
+import Vita.C10.Loops
 
 namespace Vita.C10
-open Vita.C09
+open Vita.C09 Vita.C10.Sites
 
 variable {F : Type}
 
@@ -32,45 +35,37 @@ theorem read_total_csv : ReadTotalCsv { guards := true } := by
     unfold readCsv at h
     exact readCsvRecs_valid _ _ _ _ _ _ h
 
-/-- **read_total (XRFF)** for the code after the fixes: all parsed documents -/
+/-- **read_total (XRFF)** for the code after the fixes: all parsed documents, all hooks (a hook may reject
+    the record and may rewrite it: `filter_hook_t = std::function<bool (record_t &)>`) -/
 theorem read_total_xrff : ReadTotalXrff { guards := true } := by
-  intro F o filter doc
-  constructor
-  · exact readXrff_noFault o filter doc
-  · intro df n h
-    unfold readXrff at h
-    split at h
-    · cases h
-    · cases h
-    · next attrs instances =>
-      cases ha : List.foldlM xAttrStep ({} : XSt) attrs with
-      | error e => simp [ha, bind, Except.bind] at h
-      | ok st =>
-        simp only [ha, bind, Except.bind] at h
-        split at h
-        · cases h
-        · split at h
-          · cases h
-          · next insts =>
-            cases hi : List.foldlM (xInstStep { guards := true } o filter
-                (if st.nOutput = 0 then st.index - 1 else st.outputIndex))
-                ({ cols := if st.nOutput = 0 then st.cols.getLast?.toList ++ st.cols.dropLast else st.cols } : DF F)
-                insts with
-            | error e => simp [hi] at h
-            | ok df' =>
-              simp only [hi] at h
-              cases hv : isValid df' with
-              | error e => simp [hv] at h
-              | ok v =>
-                simp only [hv, Bool.true_and] at h
-                split at h
-                · cases h
-                · next hc =>
-                  simp only [pure, Except.pure, Except.ok.injEq, Prod.mk.injEq] at h
-                  obtain ⟨rfl, rfl⟩ := h
-                  simp only [Bool.not_eq_true', Bool.not_eq_false] at hc
-                  have hvalid : Valid df' := by unfold Valid; rw [hv, hc]
-                  exact ⟨hvalid, valid_equalInputs _ hvalid, by simp [hc]⟩
+  intro F o hook doc
+  exact ⟨readXrffH_noFault o hook doc, fun df n h => readXrffH_valid o hook doc df n h⟩
+
+/-- the same for a filter that only accepts or rejects (`readXrff`, the form used by the round-1 theorems) -/
+theorem read_total_xrff_pred (o : NumOracle F) (f : List Str → Bool) (doc : XDoc) :
+    NoFault (readXrff { guards := true } o f doc) ∧
+    ∀ df n, readXrff { guards := true } o f doc = .ok (df, n) →
+      Valid df ∧ EqualInputs df ∧ n = df.examples.length := by
+  rw [readXrff_eq_H]
+  exact read_total_xrff F o (Hook.ofPred f) doc
+
+/-- **read_total (file)**: `dataframe::read(path, params)` – XRFF for `.xrff` / `.xml` in any case, else CSV – never
+    faults and returns only valid dataframes with equally long inputs; the count it returns is the number of examples -/
+theorem read_total_file : ReadTotalFile { guards := true } := by
+  intro F o p ext bytes doc
+  unfold readFile
+  split
+  · exact read_total_xrff F o p.hook doc
+  · constructor
+    · exact noFault_bind (read_total_csv F o p bytes).1 (fun df => noFault_pure _)
+    · intro df n h
+      cases hr : readCsv { guards := true } o p bytes with
+      | error e => simp [hr, bind, Except.bind] at h
+      | ok df' =>
+        simp only [hr, bind, Except.bind, pure, Except.pure, Except.ok.injEq, Prod.mk.injEq] at h
+        obtain ⟨rfl, rfl⟩ := h
+        obtain ⟨h1, _, h3⟩ := (read_total_csv F o p bytes).2 df' hr
+        exact ⟨h1, h3, rfl⟩
 
 /-! ### the code as found -/
 
@@ -133,10 +128,78 @@ theorem read_total_old_false : ¬ ReadTotalCsv { guards := false } ∧ ¬ ReadTo
     have := (h Nat o { delim := ',', header := some false } "a,b\nc,d,e\n".toList).1
     exact this .build (old_build_faults o (fun _ _ _ => rfl))
   · intro h
-    have := (h Nat o (fun _ => true)
+    have := (h Nat o (Hook.ofPred (fun _ => true))
       (.doc [⟨"a".toList, false, "string".toList, []⟩, ⟨"c".toList, true, "string".toList, []⟩]
             (some [["x".toList]]))).1
+    rw [← readXrff_eq_H] at this
     exact this .rotateXrff (old_rotate_xrff_faults o)
+
+/-! ### every access site of the C++ readers (extracted by tools/translate_reader.py on every run) -/
+
+/-- **sites_safe.**  For every subscript / `front` / `back` / iterator-arithmetic / iterator-, pointer- and
+    optional-dereference / `std::string(const char *)` site that the translator finds in `read_csv`, `read_xrff`,
+    `read`, `read_record`, `to_example`, `columns_info::build`, `is_valid`, `encode`, `class_name`, the whole of
+    pocket_csv.h (parser, `parse_line`, `get_input`, sniffer), `src_problem(stream)`, `setup_terminals`, `category_set`:
+    in every state in which the guards that dominate the site hold, the index is inside the container
+    (`idx < size`; `≤ size` for a position; the pointer / optional is not null; a call that closes a cycle of the
+    call graph is unreachable) – or the site is one of the ten of `reviewedSites`, whose safety is argued on the
+    model there.  Deleting or weakening a guard, or adding an access that is not evidently guarded, makes a
+    conjunct unprovable. -/
+theorem sites_safe : ∀ s ∈ Gen.sites, s.Safe ∨ s.key ∈ reviewedSites := by
+  rw [← allP_iff]
+  unfold Gen.sites
+  repeat' (first | exact trivial | apply And.intro)
+  all_goals first
+    | (left; intro env hg
+       simp only [allHold, GE.eval, IE.eval, SiteRec.goal] at hg ⊢
+       omega)
+    | (right; decide)
+
+/-- **no_reachable_recursion.**  Every call that closes a cycle among the reader functions (the translator inlines
+    a cycle once and reports the call that would start a third turn) is dominated by guards that contradict each
+    other: no reader function calls itself, directly or through others, on any input.  (In the tree as it is the
+    only cycle is `get_input` → `const_iterator()` → `get_input`, cut by the null stream of the default argument.)
+    None of these sites is in `reviewedSites`. -/
+theorem no_reachable_recursion : ∀ s ∈ Gen.sites, s.kind = .never → s.Safe := by
+  rw [← allP_iff]
+  unfold Gen.sites
+  repeat' (first | exact trivial | apply And.intro)
+  all_goals first
+    | (intro hk; exact absurd hk (by decide))
+    | (intro _ env hg
+       simp only [allHold, GE.eval, IE.eval, SiteRec.goal] at hg ⊢
+       omega)
+
+/-! ### termination and stack depth of the parser's loops -/
+
+/-- how `get_input` skips lines, from the generated call graph: a self call makes it a recursion -/
+def getInputShape : Shape :=
+  if Gen.selfRecursive.contains "pocket_csv::parser::const_iterator::get_input()" then .recursion else .loop
+
+/-- **get_input_terminates_flat.**  On every stream (list of lines), for every dialect and hook: iterating the
+    parser as `read_csv` / `has_header` do (`begin()`, then `++` until `end()`) (a) yields exactly the records of the
+    specification the C09 / C10 theorems speak about, (b) calls `std::getline` once per line plus once at the end –
+    every loop iteration consumes a line, so the loops terminate – and (c) never has more than ONE activation
+    record of `get_input` on the stack, however long the runs of blank or hook-rejected lines are. -/
+theorem get_input_terminates_flat (dl : Dialect) (hook : Hook) (lines : List Str) :
+    (iterate getInputShape dl hook lines).recs = records dl hook lines ∧
+    (iterate getInputShape dl hook lines).getlines = lines.length + 1 ∧
+    (iterate getInputShape dl hook lines).depth = 1 := by
+  have hs : getInputShape = .loop := by decide
+  rw [hs]
+  exact ⟨iterate_recs _ dl hook lines, iterate_getlines _ dl hook lines, iterate_depth_loop dl hook lines⟩
+
+/-- **recursive_skipping_unbounded.**  The same function with the skipping written as a self call per skipped
+    line (the seeded change C10-m4) computes the same records with the same number of `getline`s, but its stack
+    depth exceeds every bound: `n` blank lines need more than `n` activation records.  (This is why the check
+    reads long runs of skipped lines on a small stack.) -/
+theorem recursive_skipping_unbounded (dl : Dialect) (hook : Hook) :
+    (∀ lines, (iterate .recursion dl hook lines).recs = (iterate .loop dl hook lines).recs ∧
+              (iterate .recursion dl hook lines).getlines = (iterate .loop dl hook lines).getlines) ∧
+    ∀ n, n < (iterate .recursion dl hook (List.replicate n [])).depth := by
+  refine ⟨fun lines => ⟨?_, ?_⟩, iterate_depth_recursion_unbounded dl hook⟩
+  · rw [iterate_recs, iterate_recs]
+  · rw [iterate_getlines, iterate_getlines]
 
 /-- non-vacuity: the fixed model does return dataframes (`a,b / c,d` with labels in column 0) -/
 example : ∃ df : DF Nat, readCsv { guards := true }
